@@ -182,6 +182,65 @@ async def run_schema(s, cases, schema_name):
     return out
 
 
+TEMPORAL_SDL = """
+input When { days: [Date!] at: DateTime tags: [String] }
+type Tick { n: Int day: Date }
+type Query { ping: Int }
+type Subscription { ticks(days: [Date!], at: [DateTime], w: When, label: String): Tick }
+"""
+TEMPORAL_REQUESTS = [
+    # variables whose coerced value is NOT accepted as a raw value again (a Date is parsed from a string; the parsed
+    # date is not a string): whatever the engine does with the variables per event, every event is answered like
+    # executing the request against that event
+    ("subscription ($d: [Date!]) { ticks(days: $d) { n day } }", {"d": ["2020-01-02", "2021-03-04"]}),
+    ("subscription ($d: [Date!], $a: [DateTime]) { ticks(days: $d, at: $a) { n } }",
+     {"d": ["2020-01-02"], "a": ["2020-01-02T03:04:05", None]}),
+    ("subscription ($w: When) { ticks(w: $w) { n day } }", {"w": {"days": ["2019-12-31"], "at": "2020-01-02T03:04:05", "tags": ["x"]}}),
+    ("subscription ($d: Date!) { ticks(days: [$d]) { n } }", {"d": "2020-02-29"}),
+    ("subscription ($l: String = \"z\") { ticks(label: $l) { n } }", {}),
+]
+
+
+async def temporal_variable_scenario():
+    """Hand schema with the library's Date / DateTime scalars in list and input-object variables."""
+    import copy as _copy
+    from tartiflette import create_engine, Subscription, Resolver
+    name = fresh_schema_name("c14temporal")
+    started = []
+    events = [{"ticks": {"n": i, "day": None}} for i in range(3)]
+
+    @Subscription("Subscription.ticks", schema_name=name)
+    async def ticks(parent, args, ctx, info):      # pylint: disable=unused-variable
+        started.append(repr(sorted(args.items())))
+        for ev in events:
+            yield ev
+
+    @Resolver("Query.ping", schema_name=name)
+    async def ping(parent, args, ctx, info):       # pylint: disable=unused-variable
+        return 1
+
+    engine = await create_engine(TEMPORAL_SDL, schema_name=name)
+    problems, n = [], 0
+    for q, variables in TEMPORAL_REQUESTS:
+        given = _copy.deepcopy(variables)
+        del started[:]
+        got, raised = [], None
+        try:
+            async for r in engine.subscribe(q, variables=given):
+                got.append(r)
+                if len(got) > 10:
+                    break
+        except Exception as e:  # pylint: disable=broad-except
+            raised = repr(e)
+        want = [await engine.execute(q, variables=_copy.deepcopy(variables), initial_value=ev) for ev in events]
+        n += len(events)
+        if raised or len(started) != 1 or [_canon(x) for x in got] != [_canon(x) for x in want]:
+            problems.append({"sdl": TEMPORAL_SDL, "query": q, "variables": variables, "events": events, "raised": raised,
+                             "source_started": list(started), "responses": got,
+                             "executing_the_request_against_each_event": want})
+    return problems, n
+
+
 def _canon(resp):
     # engine-authored texts may quote the repr of a user object: addresses differ from run to run
     import re
@@ -234,6 +293,7 @@ def main(tier_, replay=None):
     cfg = {"parent": True, "list": True, "args": "gather"}
     files, meta = [], []
     viol, total_events, total_streams, refused = [], 0, 0, 0
+    distinct_events = set()
     interleaved_total = 0
     for si in range(n_schemas):
         s = execgen.gen_exec_schema(rng, with_subscription=True)
@@ -292,6 +352,7 @@ def main(tier_, replay=None):
                                                          for k, v in r["started"][0][1].items()]), len(r["responses"]))
                 for i, ev in enumerate(c["events"]):
                     total_events += 1
+                    distinct_events.add((c["query"], json.dumps(c["variables"], sort_keys=True, default=repr), repr(ev)))
                     ev_cases.append({"query": c["query"], "variables": c["variables"], "opname": c["opname"],
                                      "root": ev, "oracle_seed": c["oracle_seed"] + i})
                     ev_asts.append(ast)
@@ -326,11 +387,17 @@ def main(tier_, replay=None):
             impl_mm.append((s, evc[i], evr[i], "event response"))
         for i in common.parse_Z_list(so, "sub_mismatch") or []:
             impl_mm.append((s, cases[i] if cases else {}, {}, "stream shape / source arguments"))
+    temporal_problems, temporal_events = asyncio.run(temporal_variable_scenario())
+    total_events += temporal_events
+    for pr in temporal_problems[:3]:
+        rep.violation(dict(pr, property="C14", kind="a stream over list / input-object variables of Date / DateTime does not answer "
+                           "each event like executing the request against it", responses=repr(pr["responses"])[:2000],
+                           executing_the_request_against_each_event=repr(pr["executing_the_request_against_each_event"])[:2000]))
     for s, c, r, why in viol[:5]:
         rep.violation({"property": "C14", "kind": why, "sdl": gen.schema_sdl(s), "query": c.get("query"),
                        "variables": c.get("variables"), "opname": c.get("opname"), "events": repr(c.get("events"))[:1500],
                        "responses": repr(r.get("responses", r.get("response")))[:3000]})
-    if not viol:
+    if not viol and not temporal_problems:
         if not proofs_ok:
             rep.violation({"property": "C14", "what": "proof obligation no longer checks", "file": b.get("failed_file"),
                            "theorem": b.get("failed_lemma"), "gate": gate, "log_tail": b["log"][-1500:]}, no_input=True)
@@ -346,9 +413,11 @@ def main(tier_, replay=None):
         "checker_cmd": "make Properties/C14.vo", "trusted_base": common.TRUSTED_BASE + [
             "Print Assumptions: %d theorems closed; axioms: %s" % (assum["closed"], assum["axioms"] or "none")],
         "theorems": [n for n in names if n.startswith("C14_")],
-        "evaluations": total_streams, "distinct_nontrivial": total_events, "interleaved_pairs": interleaved_total,
+        "evaluations": total_streams + total_events, "distinct_nontrivial": len(distinct_events),
+        "streams": total_streams, "events_answered": total_events, "interleaved_pairs": interleaved_total,
         "rule": "subscription documents x finite event sequences (well-formed payloads, nulls, garbage), consumed "
-                "event by event; non-trivial = events answered and compared with execute(initial_value=event)",
+                "event by event; evaluations = streams opened + events answered; non-trivial = distinct (document, variables, "
+                "event) triples answered and compared with execute(initial_value=event)",
         "traces_validated_against_impl": total_events, "refused_streams": refused,
         "impl_model_mismatches": len(impl_mm), "property_violations": len(viol),
         "samples": [{"query": c["query"], "events": repr(c["events"])[:300]} for c in (meta[0][3] or [])[:2]] if meta else [],
